@@ -42,11 +42,31 @@ def trial_case(cid, rng, true_pt=False, zero_var=False):
     uniq = sorted(set(names))
     c = {"id": cid, "kind": "trial", "n": n, "nrep": nrepv if not true_pt else [1], "g": g.tolist(),
          "name": [uniq.index(x) for x in names], "grp": [int(x) for x in grp], "err": None, "true": true_pt}
+    # per-trait variance vectors with exact zeros among positive entries: a zero-variance component contributes 0 for
+    # that trait only
+    mixed = (not true_pt) and (not zero_var) and T >= 2 and rng.random() < 0.5
+    zsets = {"env": set(), "rep": set(), "err": set()}
+    if mixed:
+        for key in zsets:
+            if rng.random() < 0.6:
+                zsets[key] = set(rng.sample(range(T), rng.randrange(1, T)))
     E = [[0 if (true_pt or zero_var) else rng.randrange(-9, 10) for _ in range(T)] for _ in range(nenv)]
     R = [[[0 if (true_pt or zero_var) else rng.randrange(-4, 5) for _ in range(T)] for _ in range(nrepv[e])] for e in range(nenv)]
     eps = [[[[0 if (true_pt or zero_var) else rng.randrange(-3, 4) for _ in range(T)] for _ in range(n)] for _ in range(nrepv[e])] for e in range(nenv)]
     if true_pt:
         E = [[0] * T]; R = [[[0] * T]]; eps = [[[[0] * T for _ in range(n)]]]
+    for t in zsets["env"]:
+        for e in range(nenv):
+            E[e][t] = 0
+    for t in zsets["rep"]:
+        for e in range(nenv):
+            for k in range(nrepv[e]):
+                R[e][k][t] = 0
+    for t in zsets["err"]:
+        for e in range(nenv):
+            for k in range(nrepv[e]):
+                for i_ in range(n):
+                    eps[e][k][i_][t] = 0
     c["E"] = E; c["R"] = R; c["eps"] = eps
     plan = []
     for e in range(nenv):
@@ -75,7 +95,9 @@ def trial_case(cid, rng, true_pt=False, zero_var=False):
             else:
                 srng = Scripted(1, mvn=mvn)
                 var = 0.0 if zero_var else 1.0
-                prot = G_E_Phenotyping(gm, nenv=nenv, nrep=np.array(nrepv), var_env=var, var_rep=var, var_err=var,
+                vv = {key: (np.array([0.0 if t in zsets[key] else 1.0 + t for t in range(T)]) if mixed else var) for key in zsets}
+                c["mixed"] = mixed
+                prot = G_E_Phenotyping(gm, nenv=nenv, nrep=np.array(nrepv), var_env=vv["env"], var_rep=vv["rep"], var_err=vv["err"],
                                        rng=srng if not zero_var else np.random.default_rng(rng.randrange(2 ** 32)))
                 if rng.random() < 0.35:
                     # the protocol object has already been used on a population of another size
